@@ -19,3 +19,4 @@ pub mod ribquery;
 pub mod http;
 pub mod filter;
 pub mod bmp_stream;
+pub mod bgp_session;
